@@ -195,6 +195,18 @@ func capturedWrites(info *types.Info, pkgScope *types.Scope, fl *ast.FuncLit) []
 			if id, ok := unparen(x.Fun).(*ast.Ident); ok {
 				if b, ok := info.Uses[id].(*types.Builtin); ok && len(x.Args) > 0 {
 					switch b.Name() {
+					case "append":
+						// append(captured[:n], v): writes into the spare capacity of the shared backing
+						// array and returns a slice aliasing it (a three-index slice with cap == len is safe)
+						first := unparen(x.Args[0])
+						if se, ok := first.(*ast.SliceExpr); ok && se.Slice3 && se.Max != nil && se.High != nil && types.ExprString(se.Max) == types.ExprString(se.High) {
+							break
+						}
+						if t := info.TypeOf(first); t != nil {
+							if _, isSlice := t.Underlying().(*types.Slice); isSlice && len(x.Args) > 1 {
+								record(first, "append (in place, into the shared backing array) to")
+							}
+						}
 					case "copy":
 						record(x.Args[0], "copy into")
 					case "delete":
@@ -226,6 +238,10 @@ func gen(n *node) {
 		c[1] = 2
 		n.n = 4
 		copy(cases, f.data)
+		grown := append(cases[:2], 7)
+		_ = grown
+		own := append([]int{}, cases...)
+		_ = own
 		local := 0
 		local++
 		f.data[0] = local
@@ -255,10 +271,10 @@ func c08PositiveControl(r *Report) {
 		}
 		return true
 	})
-	if n != 5 {
-		r.Errorf("R08.1 positive control: matcher found %d captured writes in the control snippet, want 5 (the rule would pass vacuously)", n)
+	if n != 6 {
+		r.Errorf("R08.1 positive control: matcher found %d captured writes in the control snippet, want 6 (the rule would pass vacuously)", n)
 	} else {
-		r.Note("R08.1 positive control: matcher fires on the 5 seeded writes of the control snippet and on none of its 3 legitimate stores")
+		r.Note("R08.1 positive control: matcher fires on the 6 seeded writes of the control snippet and on none of its 4 legitimate stores")
 	}
 }
 
